@@ -193,6 +193,11 @@ def check_tree(acc, t):
         if decode(node) != dump0:
             acc.violation("override-mutated-input:%s" % cname, {"tree": t, "override": cname, "check": "override"})
             node = encode(t)
+    # (d') handlers that recurse into freshly built temporaries
+    out = make_rebuilding_transformer().visit(node)
+    acc.count("executions")
+    if decode(out) != t:
+        acc.violation("rebuilding-transformer:" + t[0], {"tree": t, "expected": t, "observed": decode(out), "check": "rebuild"})
     # (e) shipped visitors never mutate their input
     for name, mk in shipped():
         try:
@@ -204,6 +209,22 @@ def check_tree(acc, t):
         if decode(node) != dump0:
             acc.violation("shipped-visitor-mutated-input:%s:%s" % (name, t[0]), {"tree": t, "visitor": name, "observed": decode(node), "check": "shipped"})
             node = encode(t)
+
+
+def make_rebuilding_transformer():
+    """every handler hands a freshly built, short-lived COPY of its node to generic_visit (as a rewrite rule that builds a
+    replacement and recurses into it would): the result must still equal the input (object identity must not matter)"""
+    import dataclasses
+
+    def mk(cname):
+        def handler(self, node):
+            copy = type(node)(**{f.name: (list(getattr(node, f.name)) if isinstance(getattr(node, f.name), list) else getattr(node, f.name))
+                                 for f in dataclasses.fields(node)})
+            return visitor.NodeTransformer.generic_visit(self, copy)      # `copy` is a temporary that dies right after this call
+        return handler
+    attrs = {"visit_" + c.__name__: mk(c.__name__) for c in NODE_CLASSES
+             if c.__name__ in ("BinOp", "Compare", "BoolOp", "UnaryOp", "Call", "List", "Attribute", "NamedParam", "CollectionLambda", "Lambda")}
+    return type("Rebuilder", (visitor.NodeTransformer,), attrs)()
 
 
 class LateVisitor(visitor.NodeVisitor):
